@@ -540,6 +540,11 @@ pub struct RenderOpts {
     /// spelling of the %s/%x directive words (index into DIRECTIVES_*, rotated per line)
     #[serde(default)]
     pub directive_variant: usize,
+    /// layout before the k-th line of the declarations section (the last entry is for `%%`):
+    /// bit 0 = an empty line first, bit 1 = a line of blanks first, bit 2 = the line is indented
+    /// by spaces, bit 3 = by a tab
+    #[serde(default)]
+    pub decl_layout: Vec<u8>,
 }
 
 pub const DIRECTIVES_INCL: &[&str] = &["%s", "%S", "%start", "%state", "%Sx9", "%s"];
@@ -559,6 +564,7 @@ impl RenderOpts {
             states_one_line: true,
             bare_alt: vec![false; n],
             directive_variant: 0,
+            decl_layout: vec![],
         }
     }
     pub fn generate(ch: &mut Choices, n: usize, header: bool) -> Self {
@@ -574,7 +580,25 @@ impl RenderOpts {
             states_one_line: ch.chance(1, 2),
             bare_alt: (0..n).map(|_| ch.chance(1, 2)).collect(),
             directive_variant: ch.pick(6),
+            decl_layout: (0..6).map(|_| if ch.chance(1, 3) { 1 + ch.pick(15) as u8 } else { 0 }).collect(),
         }
+    }
+}
+
+/// Blank lines and indentation in the declarations section (legal white space).
+fn decl_prefix(o: &RenderOpts, k: usize, s: &mut String) {
+    let b = o.decl_layout.get(k).copied().unwrap_or(0);
+    if b & 1 != 0 {
+        s.push('\n');
+    }
+    if b & 2 != 0 {
+        s.push_str("  \t \n");
+    }
+    if b & 4 != 0 {
+        s.push_str("  ");
+    }
+    if b & 8 != 0 {
+        s.push('\t');
     }
 }
 
@@ -621,9 +645,12 @@ pub fn render(al: &AL, o: &RenderOpts) -> (String, Layout) {
     if o.states_one_line {
         // group by kind, keeping ids in declaration order requires one line per kind change
         let mut i = 0;
+        let mut line = 0;
         while i < al.states.len() {
             let excl = al.states[i].1;
             let dv = (o.directive_variant + i) % 6;
+            decl_prefix(o, line, &mut s);
+            line += 1;
             s.push_str(if excl { DIRECTIVES_EXCL[dv] } else { DIRECTIVES_INCL[dv] });
             while i < al.states.len() && al.states[i].1 == excl {
                 s.push(' ');
@@ -637,6 +664,7 @@ pub fn render(al: &AL, o: &RenderOpts) -> (String, Layout) {
     } else {
         for (k, (name, excl)) in al.states.iter().enumerate() {
             let dv = (o.directive_variant + 1 + k) % 6;
+            decl_prefix(o, k, &mut s);
             s.push_str(if *excl { DIRECTIVES_EXCL[dv] } else { DIRECTIVES_INCL[dv] });
             s.push_str("\t ");
             let st = s.len();
@@ -644,6 +672,9 @@ pub fn render(al: &AL, o: &RenderOpts) -> (String, Layout) {
             lay.state_names.push((st, s.len()));
             s.push('\n');
         }
+    }
+    if !al.states.is_empty() {
+        decl_prefix(o, 5, &mut s);
     }
     s.push_str("%%\n");
     for (i, r) in al.rules.iter().enumerate() {
